@@ -292,7 +292,7 @@ func representBasicPublish(event map[string]interface{}) []interface{} {
 		for name, value := range properties["headers"].(map[string]interface{}) {
 			headers = append(headers, api.TableData{
 				Name:     name,
-				Value:    value.(string),
+				Value:    value,
 				Selector: fmt.Sprintf(`request.properties.headers["%s"]`, name),
 			})
 		}
@@ -454,7 +454,7 @@ func representQueueDeclare(event map[string]interface{}) []interface{} {
 		for name, value := range event["arguments"].(map[string]interface{}) {
 			headers = append(headers, api.TableData{
 				Name:     name,
-				Value:    value.(string),
+				Value:    value,
 				Selector: fmt.Sprintf(`request.arguments["%s"]`, name),
 			})
 		}
@@ -553,7 +553,7 @@ func representExchangeDeclare(event map[string]interface{}) []interface{} {
 		for name, value := range event["arguments"].(map[string]interface{}) {
 			headers = append(headers, api.TableData{
 				Name:     name,
-				Value:    value.(string),
+				Value:    value,
 				Selector: fmt.Sprintf(`request.arguments["%s"]`, name),
 			})
 		}
@@ -770,7 +770,7 @@ func representQueueBind(event map[string]interface{}) []interface{} {
 		for name, value := range event["arguments"].(map[string]interface{}) {
 			headers = append(headers, api.TableData{
 				Name:     name,
-				Value:    value.(string),
+				Value:    value,
 				Selector: fmt.Sprintf(`request.arguments["%s"]`, name),
 			})
 		}
@@ -834,7 +834,7 @@ func representBasicConsume(event map[string]interface{}) []interface{} {
 		for name, value := range event["arguments"].(map[string]interface{}) {
 			headers = append(headers, api.TableData{
 				Name:     name,
-				Value:    value.(string),
+				Value:    value,
 				Selector: fmt.Sprintf(`request.arguments["%s"]`, name),
 			})
 		}
